@@ -29,18 +29,30 @@ var genNames = []string{"MT19937", "MT19937_64", "SplitMix64", "Xoshiro256plus",
 // the default seed); a checkpoint taken before the first draw must preserve that.
 const unseededMT = ^uint64(0)
 
+// genSeedFromKeys selects, for the run in progress, the array seeding of the
+// Mersenne Twisters (SeedFromKeys) instead of Seed.
+var genSeedFromKeys bool
+
 func newGen(kind int, seed uint64) gen {
 	switch kind {
 	case 0:
 		g := prng.NewMT19937()
 		if seed != unseededMT {
-			g.Seed(seed)
+			if genSeedFromKeys {
+				g.SeedFromKeys([]uint32{uint32(seed), uint32(seed >> 32), 0x123, uint32(seed>>13) | 1})
+			} else {
+				g.Seed(seed)
+			}
 		}
 		return g
 	case 1:
 		g := prng.NewMT19937_64()
 		if seed != unseededMT {
-			g.Seed(seed)
+			if genSeedFromKeys {
+				g.SeedFromKeys([]uint64{seed, seed>>7 | 1, 0x12345})
+			} else {
+				g.Seed(seed)
+			}
 		}
 		return g
 	case 2:
@@ -85,8 +97,10 @@ func runPRNG(c *Ctx) *Violation {
 		seed = unseededMT
 		c.Probe("unseeded_generator_checkpointed", 1)
 	}
+	genSeedFromKeys = kind <= 1 && seed != unseededMT && t.Choose(simrt.KWorkload, 3) == 2
 	c.Instance["generator"] = name
 	c.Instance["seed"] = seed
+	c.Instance["seeded_from_keys"] = genSeedFromKeys
 	c.Declare("restart_crossed_state_refill", "corrupted_state_accepted", "unseeded_generator_checkpointed")
 	const L = 1300
 	ref := make([]uint64, L+720)
@@ -292,6 +306,9 @@ func runHLL(c *Ctx) *Violation {
 	prec := 4 + t.Choose(simrt.KWorkload, 7)
 	which := t.Choose(simrt.KWorkload, 2)
 	n := 1 + t.Choose(simrt.KWorkload, 300)
+	if t.Choose(simrt.KWorkload, 8) == 7 {
+		n = 2000 + t.Choose(simrt.KWorkload, 3000) // past the small-range correction of every precision up to 10
+	}
 	name := fmt.Sprintf("HyperLogLog%d", bits)
 	c.Instance["sketch"] = name
 	c.Instance["precision"] = prec
@@ -402,6 +419,27 @@ func runHLL(c *Ctx) *Violation {
 		}
 		if u.Count() != ref.Count() {
 			return viol("hll-state/"+name+"/union", "Union of a sketch with itself counts %v, the sketch %v", u.Count(), ref.Count())
+		}
+		// Reset: a restored sketch that is reset and fed again is the
+		// uninterrupted sketch; a reset sketch marshals like a new one
+		{
+			z := zeroSketch(bits)
+			z.UnmarshalBinary(final)
+			z.(interface{ Reset() }).Reset()
+			fresh, _ := newSketch(bits, prec, hashCtor(bits, which))
+			ze, _ := z.MarshalBinary()
+			fe, _ := fresh.MarshalBinary()
+			c.Oracle("reset")
+			if z.Count() != 0 || !bytes.Equal(ze, fe) {
+				return viol("hll-state/"+name+"/reset", "a restored sketch after Reset counts %v and marshals differently from a new sketch of the same precision and hash: %v", z.Count(), !bytes.Equal(ze, fe))
+			}
+			for i := 0; i < n; i++ {
+				z.Write(item(i))
+			}
+			ze, _ = z.MarshalBinary()
+			if !bytes.Equal(ze, final) {
+				return viol("hll-state/"+name+"/reset", "a restored sketch that was Reset and fed the same %d items differs from the uninterrupted sketch", n)
+			}
 		}
 		// the receiver of Union had no hash: it "can be set after a call to Union with the SetHash method"
 		c.Oracle("sethash-after-union")
